@@ -81,9 +81,10 @@ def delete_discipline(ctx, rule):
                   "differently from the whole message")
     f = ctx.fn("aio.http.httping", "parseChunk")
     V = FuncView(ctx, f)
-    dels = [n for n in V.cfg.nodes if isinstance(n.ast, ast.Delete) and src(n.ast.targets[0]).startswith("raw[")]
+    # (other prefixes deleted in parseChunk are covered by the wait-before-read rule)
+    dels = [n for n in V.cfg.nodes if isinstance(n.ast, ast.Delete) and src(n.ast.targets[0]) == "raw[:size]"]
     w = [n for n in V.cfg.nodes if n.kind == "test" and isinstance(n.ast, ast.While) and src(n.ast.test) == "len(raw) < size"]
-    ok = bool(dels) and bool(w) and all(V.dominated_by_edge([d], w[0], "F") and src(d.ast.targets[0]) == "raw[:size]" for d in dels)
+    ok = bool(dels) and bool(w) and all(V.dominated_by_edge([d], w[0], "F") for d in dels)
     st = [n for n in V.cfg.nodes if isinstance(n.ast, ast.Assign) and dotted(n.ast.targets[0]) == "chunk" and src(n.ast.value) == "raw[:size]"]
     ok = ok and bool(st) and V.dominated(dels, st)
     ctx.check(ok, rule, f, "parseChunk: chunk = raw[:size]; del raw[:size] only once len(raw) >= size", "a partially received chunk must not be consumed")
@@ -103,6 +104,335 @@ def delete_discipline(ctx, rule):
         ok = bool(w) and len(st) == 1 and len(dl) == 1 and V.dominated_by_edge(st + dl, w[0], "F") and V.dominated(dl, st)
         ctx.check(ok, rule, f, "%s.parseBody (fixed length): body = msg[:length]; del msg[:length] once len(msg) >= length" % cn,
                   "a fixed-length body must consume exactly content-length bytes so that bytes after the message stay for the next one")
+
+
+BUFFERS = ("raw", "self.msg", "self.raw")
+
+
+def scan_offsets(ctx, rule):
+    """T1-scan: a delimiter search over the receive buffer covers the whole unconsumed buffer.
+    `raw.find(eol)` searches from the front.  A resume offset `raw.find(eol, s)` is accepted only if
+    (a) every assignment to s is the constant 0 or `max(0, len(raw) - K)` with K >= longest delimiter - 1
+        (a delimiter straddling two receives is still seen), and
+    (b) after every `del raw[...]` no find is reachable without passing an `s = 0` (offsets do not survive consumption)."""
+    hm = ctx.repo.mod("aio.http.httping")
+    consts = {}
+    for n in hm.tree.body:
+        if isinstance(n, ast.Assign) and isinstance(n.value, ast.Constant) and isinstance(n.value.value, bytes):
+            for t in n.targets:
+                if isinstance(t, ast.Name):
+                    consts[t.id] = n.value.value
+    n_find = 0
+    for fname in PARSE_FUNCS:
+        f = ctx.fn("aio.http.httping", fname)
+        V = FuncView(ctx, f)
+        finds = []
+        for nd in V.cfg.nodes:
+            for x in V.cfg.walk_node(nd):
+                if isinstance(x, ast.Call) and isinstance(x.func, ast.Attribute) and x.func.attr in ("find", "index", "rfind", "partition", "split") \
+                        and src(x.func.value) in BUFFERS:
+                    finds.append((nd, x))
+        for nd, call in finds:
+            n_find += 1
+            extra = call.args[1:] + [k.value for k in call.keywords]
+            if call.func.attr not in ("find", "index", "rfind") or not extra:
+                ctx.ok(rule, call, "%s: %s searches the whole buffer" % (fname, src(call)))
+                continue
+            if len(extra) > 1 or not isinstance(extra[0], ast.Name):
+                ctx.bad(rule, call, "%s: %s" % (fname, src(call)), "delimiter search restricted to part of the receive buffer by a non-trivial range")
+                continue
+            s = extra[0].id
+            buf = src(call.func.value)
+            # longest delimiter the function may be asked to find: default of the eols parameter / literal argument
+            longest = 1
+            for a, dflt in zip(reversed(f.args.args), reversed(f.args.defaults)):
+                if isinstance(dflt, ast.Tuple):
+                    for e in dflt.elts:
+                        v = consts.get(e.id) if isinstance(e, ast.Name) else (e.value if isinstance(e, ast.Constant) else None)
+                        if isinstance(v, bytes):
+                            longest = max(longest, len(v))
+            if isinstance(call.args[0], ast.Constant) and isinstance(call.args[0].value, bytes):
+                longest = max(longest, len(call.args[0].value))
+            why = []
+            asg = [n for n in V.cfg.nodes if isinstance(n.ast, (ast.Assign, ast.AugAssign)) and
+                   any(dotted(t) == s for t in (n.ast.targets if isinstance(n.ast, ast.Assign) else [n.ast.target]))]
+            zero = []
+            for a in asg:
+                v = a.ast.value if isinstance(a.ast, ast.Assign) else None
+                if isinstance(v, ast.Constant) and v.value == 0:
+                    zero.append(a)
+                    continue
+                k = None
+                if isinstance(v, ast.Call) and call_name(v) == "max" and len(v.args) == 2:
+                    parts = sorted(v.args, key=lambda e: isinstance(e, ast.Constant), reverse=True)
+                    if isinstance(parts[0], ast.Constant) and parts[0].value == 0 and isinstance(parts[1], ast.BinOp) and \
+                            isinstance(parts[1].op, ast.Sub) and src(parts[1].left) == "len(%s)" % buf and isinstance(parts[1].right, ast.Constant):
+                        k = parts[1].right.value
+                if k is None or k < longest - 1:
+                    why.append("`%s` resumes the search %s; a delimiter of %d bytes that straddles two receives is never matched"
+                               % (src(a.ast), "at an offset that is not backed up by (longest delimiter - 1)", longest))
+            dels = [n for n in V.cfg.nodes if isinstance(n.ast, ast.Delete) and any(src(t).startswith(buf + "[") for t in n.ast.targets)]
+            for d in dels:
+                r = V.cfg.reachable(d.id, removed_nodes=[z.id for z in zero])
+                if nd.id in (r - {d.id}) or (nd.id == d.id):
+                    why.append("after `%s` the search offset `%s` is not reset to 0 before the next find: end-of-lines that moved to the "
+                               "front of the buffer are skipped" % (src(d.ast), s))
+                    break
+            ctx.check(not why, rule, call, "%s: %s resume offset is reset on consumption and backs up over a straddling delimiter" % (fname, src(call)),
+                      "; ".join(why))
+    ctx.floor(rule + ":searches", n_find, 2)
+
+
+def wait_before_read(ctx, rule):
+    """T1-wait: a prefix of the receive buffer is read (sliced, compared, deleted) only after the parser established that the
+    buffer holds that many bytes: while len(buf) < K: yield None / if len(buf) >= K / K is a found delimiter index (>= 0)."""
+    sites = 0
+    targets = [("aio.http.httping", None, n) for n in PARSE_FUNCS]
+    targets += [("aio.http.serving", "Requestant", "parseBody"), ("aio.http.clienting", "Respondent", "parseBody")]
+    for modn, cn, fname in targets:
+        f = ctx.fn(modn, fname) if cn is None else ctx.cls(modn, cn).own_method(fname)
+        V = FuncView(ctx, f)
+        for nd in V.cfg.nodes:
+            for x in V.cfg.walk_node(nd):
+                if not (isinstance(x, ast.Subscript) and src(x.value) in BUFFERS):
+                    continue
+                sl = x.slice
+                if isinstance(sl, ast.Slice):
+                    if sl.upper is None:
+                        continue                      # whole remaining buffer (read-until-close)
+                    if isinstance(sl.upper, ast.Constant) and sl.upper.value == 0:
+                        continue                      # empty slice
+                    k = src(sl.upper)
+                else:
+                    k = src(sl)
+                buf = src(x.value)
+                sites += 1
+                ok = False
+                for t in V.cfg.nodes:
+                    if t.kind != "test":
+                        continue
+                    ts = src(t.ast.test) if hasattr(t.ast, "test") else ""
+                    if ts == "len(%s) < %s" % (buf, k) and V.dominated_by_edge([nd], t, "F"):
+                        ok = True
+                    elif ts == "len(%s) >= %s" % (buf, k) and V.dominated_by_edge([nd], t, "T"):
+                        ok = True
+                    elif ts == "%s < 0" % k and V.dominated_by_edge([nd], t, "F"):
+                        # K is a delimiter position found in the buffer
+                        ok = any(isinstance(a.ast, ast.Assign) and dotted(a.ast.targets[0]) == k for a in V.cfg.nodes)
+                ctx.check(ok, rule, x, "%s: %s read only after the buffer is known to hold %s bytes" % (fname, src(x), k),
+                          "a short buffer silently yields a short slice: when the receive boundary falls inside these bytes the parser acts on a "
+                          "partial unit instead of yielding None for more")
+    ctx.floor(rule + ":reads", sites, 9)
+
+
+REVIEWED_DECODE = {
+    ("EventSource.parseEventStream", "bom.decode('UTF-8')"): "bom is what parseBom yields: codecs.BOM_UTF8 itself or an empty slice, both valid UTF-8",
+    ("Parsent.dictify", "self.body.decode('utf-8')"): "inside try/except ValueError (UnicodeDecodeError is a ValueError)",
+}
+
+
+def generator_typestate(ctx, rule, scope):
+    """T-gen: a generator that was closed is not resumed.  After `g.close()` no `next(g)` is reachable without a new
+    assignment to g (next() on a closed generator raises StopIteration, which becomes RuntimeError inside a generator)."""
+    n = 0
+    for q, f in sorted(scope.items()):
+        if "/aio/http/" not in q:
+            continue
+        closes = [c for c in ast.walk(f) if isinstance(c, ast.Call) and isinstance(c.func, ast.Attribute) and c.func.attr == "close"
+                  and isinstance(c.func.value, ast.Name) and not c.args]
+        if not closes:
+            continue
+        V = FuncView(ctx, f)
+        for c in closes:
+            g = c.func.value.id
+            nexts = [nd for nd in V.cfg.nodes if any(isinstance(x, ast.Call) and call_name(x) == "next" and x.args and dotted(x.args[0]) == g
+                                                     for x in V.cfg.walk_node(nd))]
+            if not nexts:
+                continue
+            n += 1
+            cn = [nd for nd in V.cfg.nodes if any(x is c for x in V.cfg.walk_node(nd))]
+            asg = [nd.id for nd in V.cfg.nodes if isinstance(nd.ast, ast.Assign) and any(dotted(t) == g for t in nd.ast.targets)]
+            bad = None
+            for k in cn:
+                r = set()
+                for b, _ in V.cfg.succ[k.id]:
+                    r |= V.cfg.reachable(b, removed_nodes=asg) if b not in asg else set()
+                hit = [x for x in nexts if x.id in r]
+                if hit:
+                    bad = hit[0]
+            ctx.check(bad is None, rule, c, "%s: %s.close() is never followed by next(%s) without a new generator" % (q.split(":")[1], g, g),
+                      "next(%s) at line %s is reachable after %s.close(): StopIteration from a closed generator (RuntimeError inside the "
+                      "enclosing generator) instead of parsing the following line" % (g, getattr(bad.ast, "lineno", "?") if bad else "?", g))
+    return n
+
+
+_BA_KEEP = {"strip", "lstrip", "rstrip", "partition", "rpartition", "split", "rsplit", "splitlines", "lower", "upper", "replace",
+            "title", "capitalize", "swapcase", "expandtabs", "center", "ljust", "rjust", "zfill", "copy", "translate"}
+
+
+def bytearray_keys(ctx, rule, scope):
+    """D-bakey: slices of the receive buffer are bytearrays (unhashable).  Values derived from them by bytearray-preserving
+    methods (strip/partition/split/...) must not be used as mapping keys or set members unless converted (bytes(..)/.decode(..))."""
+    hm = ctx.repo.mod("aio.http.httping")
+    hm.ns
+    # generator functions that yield a buffer slice
+    yielders = set()
+    views = {}
+
+    def view(f):
+        if id(f) not in views:
+            views[id(f)] = FuncView(ctx, f)
+        return views[id(f)]
+
+    def tainted(V, e, at, depth=0, gens=None):
+        """is expression e (evaluated at cfg node `at`) a bytearray derived from the buffer"""
+        if depth > 24:
+            return False
+        if isinstance(e, ast.Subscript):
+            if src(e.value) in BUFFERS and isinstance(e.slice, ast.Slice):
+                return True
+            return tainted(V, e.value, at, depth + 1)        # element/slice of a tainted sequence (tuple from partition, list from split)
+        if isinstance(e, ast.Call):
+            if isinstance(e.func, ast.Attribute) and e.func.attr in _BA_KEEP:
+                return tainted(V, e.func.value, at, depth + 1)
+            if call_name(e) == "next" and e.args and isinstance(e.args[0], ast.Name):
+                g = e.args[0].id
+                defs, _ = V.reaching_defs(at, g)
+                for d in defs:
+                    a = V.cfg.nodes[d].ast
+                    if isinstance(a, ast.Assign) and isinstance(a.value, ast.Call) and (call_name(a.value) or "").split(".")[-1] in yielders:
+                        return True
+            return False
+        if isinstance(e, ast.Name):
+            defs, _ = V.reaching_defs(at, e.id)
+            for d in defs:
+                nd = V.cfg.nodes[d]
+                a = nd.ast
+                if isinstance(a, ast.Assign):
+                    for t in a.targets:
+                        if isinstance(t, ast.Name) and t.id == e.id and tainted(V, a.value, nd, depth + 1):
+                            return True
+                        if isinstance(t, ast.Tuple) and any(isinstance(x, ast.Name) and x.id == e.id for x in t.elts) and \
+                                tainted(V, a.value, nd, depth + 1):
+                            return True
+                elif nd.kind == "for" and isinstance(a, ast.For):
+                    if any(isinstance(x, ast.Name) and x.id == e.id for x in ast.walk(a.target)) and tainted(V, a.iter, nd, depth + 1):
+                        return True
+            return False
+        if isinstance(e, (ast.BoolOp,)):
+            return any(tainted(V, v, at, depth + 1) for v in e.values)
+        if isinstance(e, ast.IfExp):
+            return tainted(V, e.body, at, depth + 1) or tainted(V, e.orelse, at, depth + 1)
+        return False
+
+    for name in PARSE_FUNCS:
+        f = hm.funcs[name]
+        V = view(f)
+        for nd in V.cfg.nodes:
+            for x in V.cfg.walk_node(nd):
+                if isinstance(x, ast.Yield) and x.value is not None and tainted(V, x.value, nd):
+                    yielders.add(name)
+    if "parseLine" not in yielders:
+        raise AnchorError("parseLine no longer yields a slice of the receive buffer; the bytearray-key rule needs re-reading")
+    n = 0
+    for q, f in sorted(scope.items()):
+        if "/aio/http/" not in q:
+            continue
+        V = view(f)
+        for nd in V.cfg.nodes:
+            for x in V.cfg.walk_node(nd):
+                key = None
+                if isinstance(x, ast.Subscript) and isinstance(x.ctx, ast.Store) and not isinstance(x.slice, ast.Slice) and src(x.value) not in BUFFERS:
+                    key = x.slice
+                elif isinstance(x, ast.Call) and isinstance(x.func, ast.Attribute) and x.func.attr in ("add", "setdefault", "get", "pop") and x.args \
+                        and x.func.attr != "pop":
+                    key = x.args[0]
+                elif isinstance(x, ast.Compare) and len(x.ops) == 1 and isinstance(x.ops[0], (ast.In, ast.NotIn)) and \
+                        isinstance(x.comparators[0], (ast.Name, ast.Attribute)) and src(x.comparators[0]).split(".")[-1] in ("headers", "parms", "trails"):
+                    key = x.left
+                if key is None or isinstance(key, ast.Constant):
+                    continue
+                n += 1
+                t = tainted(V, key, nd)
+                ctx.check(not t, rule, x, "%s: key %s of %s is hashable" % (q.split(":")[1], src(key), src(x)[:60]),
+                          "%s is a bytearray derived from the receive buffer (slice/strip/partition keep the type); bytearray is "
+                          "unhashable, so this raises TypeError for well-formed input that takes this path" % src(key))
+    return n
+
+
+def value_errors(ctx, rule, scope):
+    """D-valueerr: stdlib calls that raise ValueError on malformed text (int, float, urlsplit and the .port of its result)
+    are applied to received text only inside a try that handles ValueError."""
+    n = 0
+
+    def handled(c, f):
+        p, child = parent(c), c
+        while p is not None and p is not f:
+            if isinstance(p, ast.Try) and any(child is s2 for s2 in p.body):
+                for h in p.handlers:
+                    names = [] if h.type is None else [dotted(e) for e in (h.type.elts if isinstance(h.type, ast.Tuple) else [h.type])]
+                    if h.type is None or set(names) & {"ValueError", "Exception"}:
+                        return True
+            child, p = p, parent(p)
+        return False
+    for q, f in sorted(scope.items()):
+        if "/aio/http/" not in q:
+            continue
+        split_names = set()
+        for c in ast.walk(f):
+            if isinstance(c, ast.Call) and call_name(c) in ("urlsplit", "urlparse") and c.args and not isinstance(c.args[0], ast.Constant):
+                n += 1
+                a = parent(c)
+                if isinstance(a, ast.Assign):
+                    split_names |= {t.id for t in a.targets if isinstance(t, ast.Name)}
+                ctx.check(handled(c, f), rule, c, "%s: %s" % (q.split(":")[1], src(c)),
+                          "urlsplit raises ValueError for a malformed bracketed host in received text; it is not an HTTPException, so it escapes "
+                          "Parsent.parseMessage and the service loop")
+        for c in ast.walk(f):
+            if isinstance(c, ast.Attribute) and c.attr == "port" and isinstance(c.value, ast.Name) and c.value.id in split_names:
+                n += 1
+                ctx.check(handled(c, f), rule, c, "%s: %s" % (q.split(":")[1], src(c)),
+                          "SplitResult.port raises ValueError for a non-numeric or out-of-range port in received text")
+    return n
+
+
+def decode_discipline(ctx, rule, scope):
+    """D-decode: received bytes are decoded with a total codec (iso-8859-1 / latin-1 decode every byte string) or inside a
+    try that handles the decode error (UnicodeDecodeError is a ValueError)."""
+    total = {"iso-8859-1", "latin-1", "latin1", "iso8859-1"}
+    n = 0
+    for q, f in sorted(scope.items()):
+        if "/aio/http/" not in q:
+            continue
+        for c in ast.walk(f):
+            if not (isinstance(c, ast.Call) and isinstance(c.func, ast.Attribute) and c.func.attr == "decode"):
+                continue
+            n += 1
+            codec = const_str(c.args[0]) if c.args else (const_str(c.keywords[0].value) if c.keywords else "utf-8")
+            if codec is not None and codec.lower() in total:
+                ctx.ok(rule, c, "%s: %s (total codec)" % (q.split(":")[1], src(c)))
+                continue
+            errs = const_str(c.args[1]) if len(c.args) > 1 else next((const_str(k.value) for k in c.keywords if k.arg == "errors"), None)
+            if errs in ("replace", "ignore", "backslashreplace", "surrogateescape"):
+                ctx.ok(rule, c, "%s: %s (error handler %s never raises)" % (q.split(":")[1], src(c), errs))
+                continue
+            rk = (q.split(":")[1], src(c))
+            if rk in REVIEWED_DECODE:
+                ctx.ok(rule, c, "reviewed: %s %s - %s" % (rk[0], rk[1], REVIEWED_DECODE[rk]))
+                continue
+            handled = False
+            p, child = parent(c), c
+            while p is not None and p is not f:
+                if isinstance(p, ast.Try) and any(child is s or child in ast.walk(s) for s in p.body):
+                    for h in p.handlers:
+                        names = [] if h.type is None else [dotted(e) for e in (h.type.elts if isinstance(h.type, ast.Tuple) else [h.type])]
+                        if h.type is None or set(names) & {"ValueError", "UnicodeDecodeError", "UnicodeError", "Exception"}:
+                            handled = True
+                child, p = p, parent(p)
+            ctx.check(handled, rule, c, "%s: %s" % (q.split(":")[1], src(c)),
+                      "decoding received bytes as %s raises UnicodeDecodeError for bytes outside that encoding; it is not an HTTPException, "
+                      "so it escapes the per-connection handlers" % codec)
+    return n
 
 
 def fixed_arity_unpacks(ctx, rule, scope):
